@@ -285,6 +285,9 @@ def run(ctx):
                          ("http://οδός.gr/x", "http://ΟΔΌΣ.GR/x")):
                 check_chain(ctx, fn, a, [("case-any", b)], OPTSETS[:2])
                 ctx.count("case-flip-of-a-capital-sigma")
+            for a, b in (("a.com/straße", "a.com/stra%C3%9Fe"), ("a.com/x?q=ﬁn", "a.com/x?q=%EF%AC%81n"), ("a.com/a#/ſtraße", "a.com/a#/%C5%BFtra%c3%9fe")):
+                check_chain(ctx, fn, a, [("escape", b)], OPTSETS[:2])
+                ctx.count("escaped-letter-whose-casefold-differs")
             for a, b in (("a.com/?B=1&a=2", "a.com/?%42=1&a=2"), ("a.com/x?ref=FB", "a.com/x?ref=%46B"), ("a.com/Abc/Index.html", "a.com/%41bc/%49ndex.html"), ("a.com/x/b.AMP?Z=1", "a.com/x/b.%41MP?%5A=1")):
                 check_chain(ctx, fn, a, [("escape", b)], OPTSETS)
                 ctx.count("escaped-uppercase")
